@@ -20,14 +20,24 @@
 (*   ExpandRowRepeats  TRUE: table:number-rows-repeated is honoured;       *)
 (*                     FALSE: pinned code, a run of equal rows is returned *)
 (*                     once (D4b, known finding)                           *)
+(*   DescendsIntoRowContainers  TRUE (shipped): row elements wrapped in    *)
+(*                     table:table-header-rows ("rows to repeat") or       *)
+(*                     table:table-row-group (grouped rows) belong to the  *)
+(*                     sheet; FALSE: pinned code, only direct children of  *)
+(*                     table:table are read (D35)                          *)
+(*   ReadsCoveredCells TRUE (shipped): the covered cells of a merged range *)
+(*                     are (empty) cells of their row; FALSE: pinned code  *)
+(*                     skips them, later cells shift to the left (D36)     *)
 (***************************************************************************)
 EXTENDS Integers, Sequences, FiniteSets, TLC, Json
 
 CONSTANTS Chars,            \* text alphabet, e.g. {"a", "sp", "tab", "nl", "lt"}
           MaxRows, MaxCells, MaxLen,
-          FeatureSets,      \* set of subsets of {"colruns", "rowruns", "selems", "spans", "paras", "notes"}
+          FeatureSets,      \* set of subsets of {"colruns", "rowruns", "selems", "spans", "paras", "notes", "rowgroups", "merged"}
           Sheets,           \* set of <<number of sheets, requested sheet>>
-          CollectAllText, ExpandRowRepeats
+          CollectAllText, ExpandRowRepeats,
+          DescendsIntoRowContainers,   \* TRUE: rows inside table:table-header-rows / table:table-row-group are rows of the sheet
+          ReadsCoveredCells            \* TRUE: table:covered-table-cell (the hidden part of a merged range) is a cell of its row
 
 SeqsUpTo(S, n) == UNION {[1..k -> S] : k \in 0..n}
 Texts == SeqsUpTo(Chars, MaxLen)
@@ -77,9 +87,14 @@ Singles(s) == [i \in 1..Len(s) |-> <<1, s[i]>>]
 EncodeRow(row, f) == LET groups == IF "colruns" \in f THEN Runs(row) ELSE Singles(row)
                      \* ("notes": every cell carries a comment -- an office:annotation element with a paragraph of its own, which is
                      \* not text of the cell)
-                     IN [i \in 1..Len(groups) |-> [rep |-> groups[i][1], paras |-> Paragraphs(groups[i][2], f), note |-> ("notes" \in f)]]
+                     \* ("merged": an empty cell right of a cell with text is the covered part of a merged range)
+                     IN [i \in 1..Len(groups) |-> [rep |-> groups[i][1], paras |-> Paragraphs(groups[i][2], f), note |-> ("notes" \in f),
+                                                   covered |-> ("merged" \in f /\ groups[i][2] = <<>> /\ i > 1 /\ groups[i - 1][2] # <<>>)]]
 EncodeSheet(table, f) == LET groups == IF "rowruns" \in f THEN Runs(table) ELSE Singles(table)
-                         IN [i \in 1..Len(groups) |-> [rep |-> groups[i][1], cells |-> EncodeRow(groups[i][2], f)]]
+                         \* ("rowgroups": the first row element sits in table:table-header-rows, the others in one
+                         \* table:table-row-group)
+                         IN [i \in 1..Len(groups) |-> [rep |-> groups[i][1], cells |-> EncodeRow(groups[i][2], f),
+                                                       wrap |-> IF "rowgroups" \in f THEN (IF i = 1 THEN "header" ELSE "group") ELSE "none"]]
 
 (* ------------------------------ what a cell element says ------------------------------ *)
 Repeat(c, n) == [i \in 1..n |-> c]
@@ -124,13 +139,16 @@ Start == /\ status = "build"
          /\ UNCHANGED <<table, features, nsheets, wanted, pos, rows>>
 Case == UNCHANGED <<table, features, nsheets, wanted, doc>>
 RECURSIVE ExpandCells(_)
-ExpandCells(cells) == IF cells = <<>> THEN <<>> ELSE Repeat(CellText(Head(cells)), Head(cells).rep) \o ExpandCells(Tail(cells))
+ExpandCells(cells) == IF cells = <<>> THEN <<>>
+                      ELSE (IF Head(cells).covered /\ ~ReadsCoveredCells THEN <<>> ELSE Repeat(CellText(Head(cells)), Head(cells).rep))
+                           \o ExpandCells(Tail(cells))
 \* rowio.py:259-283, one table:table-row element
 DecodeRow ==
   /\ status = "reading" /\ pos < Len(doc) /\ Case
   /\ LET el == doc[pos + 1]
          row == ExpandCells(el.cells)
-     IN rows' = rows \o Repeat(row, IF ExpandRowRepeats THEN el.rep ELSE 1)
+     IN rows' = IF el.wrap # "none" /\ ~DescendsIntoRowContainers THEN rows
+                ELSE rows \o Repeat(row, IF ExpandRowRepeats THEN el.rep ELSE 1)
   /\ pos' = pos + 1 /\ UNCHANGED status
 Finish == /\ status = "reading" /\ pos = Len(doc) /\ status' = "done" /\ Case /\ UNCHANGED <<pos, rows>>
 Next == AddRow \/ AddCell \/ AddChar \/ CopyRow \/ Start \/ DecodeRow \/ Finish
